@@ -54,6 +54,7 @@ type Fn struct {
 	extraLocals map[types.Object]bool
 	rangeBody   map[int32]map[int32]bool
 	fresh       map[types.Object]bool
+	inlVars     map[types.Object]bool // parameters, results and locals of expanded helpers, result temporaries
 	liveIn    map[int32]map[types.Object]bool
 	locals    map[types.Object]bool
 	// PostFacts: formulas that hold right after the given CFG node (facts
@@ -221,8 +222,20 @@ func (f *Fn) liveness() {
 			return true
 		})
 	}
+	f.inlVars = map[types.Object]bool{}
 	for obj := range f.extraLocals {
 		f.locals[obj] = true
+		f.inlVars[obj] = true
+	}
+	for _, fi := range f.bodies {
+		ast.Inspect(fi.Decl.Body, func(n ast.Node) bool {
+			if id, ok := n.(*ast.Ident); ok {
+				if v, ok := f.Info.Defs[id].(*types.Var); ok && !v.IsField() {
+					f.inlVars[v] = true
+				}
+			}
+			return true
+		})
 	}
 	for obj := range f.volatile {
 		delete(f.locals, obj)
@@ -266,43 +279,74 @@ func (f *Fn) closureUses(body *ast.BlockStmt) {
 }
 
 func (f *Fn) livenessRest(use map[int32]map[types.Object]bool) {
+	// kill[b]: the variables of expanded helpers (parameters, locals, result temporaries) that b
+	// assigns before reading them. Only these get a precise liveness: they are bound afresh at every
+	// expansion, so keeping them live across loop iterations would only pile up stale facts. The
+	// function's own variables keep the use-based over-approximation (rules may ask about them late).
+	kill := map[int32]map[types.Object]bool{}
 	for _, b := range f.CFG.Blocks {
 		if !b.Live {
 			continue
 		}
 		u := map[types.Object]bool{}
 		use[b.Index] = u
+		defined := map[types.Object]bool{}
+		kill[b.Index] = defined
+		mark := func(obj types.Object) {
+			if obj != nil && f.locals[obj] && !(f.inlVars[obj] && defined[obj]) {
+				u[obj] = true
+			}
+		}
 		for _, n := range b.Nodes {
 			// a statement whose call was expanded reads the call's result temporaries
 			for _, s := range f.inlAt[n] {
 				for _, v := range s.Res {
-					if f.locals[v] {
-						u[v] = true
+					mark(v)
+				}
+			}
+			pureDef := map[*ast.Ident]bool{}
+			var defs []types.Object
+			switch x := n.(type) {
+			case *ast.AssignStmt:
+				if x.Tok == token.ASSIGN || x.Tok == token.DEFINE {
+					for _, l := range x.Lhs {
+						if id, ok := l.(*ast.Ident); ok {
+							if obj := f.Info.ObjectOf(id); obj != nil && f.inlVars[obj] {
+								pureDef[id] = true
+								defs = append(defs, obj)
+							}
+						}
+					}
+				}
+			case *ast.ValueSpec:
+				for _, id := range x.Names {
+					if obj := f.Info.ObjectOf(id); obj != nil && f.inlVars[obj] {
+						pureDef[id] = true
+						defs = append(defs, obj)
 					}
 				}
 			}
 			ast.Inspect(n, func(m ast.Node) bool {
-				if id, ok := m.(*ast.Ident); ok {
-					if obj := f.Info.Uses[id]; obj != nil && f.locals[obj] {
-						u[obj] = true
-					}
+				if id, ok := m.(*ast.Ident); ok && !pureDef[id] {
+					mark(f.Info.Uses[id])
 				}
 				return true
 			})
+			for _, obj := range defs {
+				defined[obj] = true
+			}
 		}
 		// a range statement reads its operand at the loop head
 		if rs, ok := b.Stmt.(*ast.RangeStmt); ok && b.Kind == cfg.KindRangeLoop {
 			ast.Inspect(rs.X, func(m ast.Node) bool {
 				if id, ok := m.(*ast.Ident); ok {
-					if obj := f.Info.Uses[id]; obj != nil && f.locals[obj] {
-						u[obj] = true
-					}
+					mark(f.Info.Uses[id])
 				}
 				return true
 			})
 		}
 	}
-	// live-in = use ∪ live-out (no kill set: a use-based over-approximation, sound for dropping facts only when dead)
+	// live-in = use ∪ (live-out − kill); kill is empty for the function's own variables
 	for changed := true; changed; {
 		changed = false
 		for i := len(f.CFG.Blocks) - 1; i >= 0; i-- {
@@ -323,7 +367,7 @@ func (f *Fn) livenessRest(use map[int32]map[types.Object]bool) {
 			}
 			for _, s := range b.Succs {
 				for o := range f.liveIn[s.Index] {
-					if !li[o] {
+					if !li[o] && !kill[b.Index][o] {
 						li[o] = true
 						changed = true
 					}
@@ -355,6 +399,9 @@ func (a *Analysis) dropDead(b *cfg.Block, st State) State {
 			return false
 		})
 	}
+	// a dead variable known equal to another term is eliminated by substitution first,
+	// so that what was learned through it (a helper's parameter, a result temporary) stays
+	st = a.substDead(st, func(t *Term) bool { return dead(t) && f.inlVars[t.Obj] })
 	// dead variables that are related to live terms by some atom are kept entirely
 	related := map[types.Object]bool{}
 	for _, d := range st.D {
@@ -387,6 +434,114 @@ func (a *Analysis) dropDead(b *cfg.Block, st State) State {
 		}
 		return true
 	})
+}
+
+// substDead rewrites, disjunct by disjunct, every dead variable that has a known
+// equal term into that term (live terms preferred).
+func (a *Analysis) substDead(st State, dead func(*Term) bool) State {
+	seen := map[types.Object]bool{}
+	var objs []types.Object
+	for _, d := range st.D {
+		for _, l := range d.L {
+			if l.A.Op != "eq" || l.Neg {
+				continue
+			}
+			for _, t := range []*Term{l.A.L, l.A.R} {
+				if dead(t) && !seen[t.Obj] {
+					seen[t.Obj] = true
+					objs = append(objs, t.Obj)
+				}
+			}
+		}
+	}
+	if len(objs) == 0 {
+		return st
+	}
+	sort.Slice(objs, func(i, j int) bool {
+		if objs[i].Pos() != objs[j].Pos() {
+			return objs[i].Pos() < objs[j].Pos()
+		}
+		return objs[i].Name() < objs[j].Name()
+	})
+	changed := false
+	out := make([]*Disj, len(st.D))
+	copy(out, st.D)
+	for _, obj := range objs {
+		vkey := Var(obj).key
+		mentionsV := func(t *Term) bool { return t.Mentions(func(s *Term) bool { return s.K == 'v' && s.Obj == obj }) }
+		for di, d := range out {
+			if d == nil {
+				continue
+			}
+			var repl *Term
+			replLive := false
+			for _, l := range d.L {
+				if l.A.Op != "eq" || l.Neg {
+					continue
+				}
+				var other *Term
+				if l.A.L.key == vkey {
+					other = l.A.R
+				} else if l.A.R.key == vkey {
+					other = l.A.L
+				}
+				if other == nil || mentionsV(other) || other.K == 'o' {
+					continue
+				}
+				live := !other.Mentions(dead)
+				if repl == nil || (live && !replLive) || (live == replLive && other.key < repl.key) {
+					repl, replLive = other, live
+				}
+			}
+			if repl == nil {
+				continue
+			}
+			n := newDisj()
+			ok := true
+			for _, l := range d.L {
+				if !l.A.Mentions(func(t *Term) bool { return t.K == 'v' && t.Obj == obj }) {
+					n.L[l.A.key] = l
+					continue
+				}
+				na := l.A.Subst(vkey, repl)
+				fm := foldAtom(na)
+				switch fm.Op {
+				case 'T':
+					if l.Neg {
+						ok = false
+					}
+					continue
+				case 'F':
+					if !l.Neg {
+						ok = false
+					}
+					continue
+				}
+				if !n.add(Lit{A: na, Neg: l.Neg}) {
+					ok = false
+				}
+			}
+			changed = true
+			if ok && n.feasible() {
+				out[di] = n
+			} else {
+				out[di] = nil
+			}
+		}
+	}
+	if !changed {
+		return st
+	}
+	var res []*Disj
+	for _, d := range out {
+		if d != nil {
+			res = append(res, d)
+		}
+	}
+	if len(res) == 0 {
+		return Unreachable()
+	}
+	return normalize(res)
 }
 
 // Locate finds the CFG node that contains the given AST node.
@@ -834,8 +989,8 @@ func derefFacts(f *Formula) *Formula {
 	for _, t := range f.Atom.Terms() {
 		t.Mentions(func(s *Term) bool {
 			if s.K == 'f' && len(s.A) == 1 && s.A[0].Typ != nil {
-				if _, isPtr := s.A[0].Typ.Underlying().(*types.Pointer); isPtr && !seen[s.A[0].key] && s.A[0].K == 'i' {
-					// only slice cells: parameters and locals assigned from calls are not worth the extra state
+				if _, isPtr := s.A[0].Typ.Underlying().(*types.Pointer); isPtr && !seen[s.A[0].key] && (s.A[0].K == 'i' || derefVars && s.A[0].K == 'v' && s.A[0].Obj != nil) {
+					// slice cells and variables (a helper's parameter standing for a slice cell of the caller)
 					seen[s.A[0].key] = true
 					out = append(out, FNotNil(s.A[0]))
 				}
@@ -1391,6 +1546,69 @@ func formulaMentions(f *Formula, key string) bool {
 func (a *Analysis) shiftVar(st State, obj types.Object, up bool) State {
 	vkey := Var(obj).key
 	mentions := func(t *Term) bool { return t.Mentions(func(s *Term) bool { return s.K == 'v' && s.Obj == obj }) }
+	// v == t: what bounds t on the surviving side bounds v as well (then it survives the shift)
+	if st.Reachable() {
+		var out []*Disj
+		for _, d := range st.D {
+			var partners []*Term
+			for _, l := range d.L {
+				if l.A.Op == "eq" && !l.Neg {
+					if l.A.L.key == vkey && !mentions(l.A.R) && l.A.R.K != 'c' && l.A.R.K != 'n' {
+						partners = append(partners, l.A.R)
+					} else if l.A.R.key == vkey && !mentions(l.A.L) && l.A.L.K != 'c' && l.A.L.K != 'n' {
+						partners = append(partners, l.A.L)
+					}
+				}
+			}
+			if len(partners) == 0 {
+				out = append(out, d)
+				continue
+			}
+			n := d.clone()
+			for _, t := range partners {
+				for _, l := range d.L {
+					switch l.A.Op {
+					case "eq":
+						if l.Neg {
+							continue
+						}
+						var c *Term
+						if l.A.L.key == t.key && (l.A.R.K == 'c') {
+							c = l.A.R
+						} else if l.A.R.key == t.key && (l.A.L.K == 'c') {
+							c = l.A.L
+						}
+						if c != nil && isIntegerType(t.Typ) {
+							n.add(Lit{A: Eq(Var(obj), c)})
+						}
+					case "lt":
+						lIs, rIs := l.A.L.key == t.key, l.A.R.key == t.key
+						if lIs == rIs {
+							continue
+						}
+						other := l.A.R
+						if rIs {
+							other = l.A.L
+						}
+						if mentions(other) {
+							continue
+						}
+						lower := (lIs && l.Neg) || (rIs && !l.Neg)
+						if lower != up {
+							continue
+						}
+						if lIs {
+							n.add(Lit{A: Lt(Var(obj), other), Neg: l.Neg})
+						} else {
+							n.add(Lit{A: Lt(other, Var(obj)), Neg: l.Neg})
+						}
+					}
+				}
+			}
+			out = append(out, n)
+		}
+		st = normalize(out)
+	}
 	return st.Map(func(l Lit) *Lit {
 		if !l.A.Mentions(func(s *Term) bool { return s.K == 'v' && s.Obj == obj }) {
 			return &l
@@ -1523,3 +1741,5 @@ func (a *Analysis) Dump() string {
 	}
 	return sb.String()
 }
+
+var derefVars = os.Getenv("ASV_DEREFVARS") != "0"
